@@ -521,6 +521,16 @@ class Mix(Scenario):
             for sid in partial:
                 out.append(('C10.no-partial-frames', 'C10.no-partial-frames | %s' % stream_shape(w.log, ep, sid),
                             '%s retains a partially reassembled frame for stream %d' % (name, sid)))
+            # "the stream's id can be used again": the test the engine applies to an incoming request with that id
+            used = sorted({ev[2].sid for ev in w.log if ev[0] == 'tx' and ev[2].sid != 0})
+            for sid in used:
+                if sid in streams:
+                    continue
+                try:
+                    sock._stream_control.assert_stream_id_available(sid)
+                except Exception as e:
+                    out.append(('C10.id-usable-again', 'C10.id-usable-again | %s | %s' % (name, type(e).__name__),
+                                '%s refuses stream id %d after its interaction terminated: %r' % (name, sid, e)))
         return out
 
     def ending_tag(self):
